@@ -196,6 +196,18 @@ def r3(chk, prog):
         chk.check(own_b == 'this' and oth_b == other_param, 'R3', f.name, 'the comparison is between a container of '
                   'this handler and a container of the other handler', f.loc(c),
                   'compares a container of %s with a container of %s' % (own_b, oth_b))
+    # ... for every handler that asks - also one that is not (yet) in the member list, as during the construction of a
+    # member, when the standard arguments of its start flags are added: no return in front of the comparison loop
+    gx = prog.one('celma::prog_args::Groups', 'crossCheckArguments')
+    for loop in loops_in(gx):
+        if not any(c.get('k') in CALL_KINDS and callee_is(c, 'Handler::crossCheckArguments') for c in walk(loop)):
+            continue
+        hx = loop_header(gx.cfg, loop)
+        seen_x = gx.cfg.reach(gx.cfg.entry_pos(), lambda pos, e: pos[0] == hx)
+        early = any(p_[0] == 'exit_from' and gx.cfg.exit_kind(p_[1]) == 'return' for p_ in seen_x)
+        chk.check(not early, 'R3', gx.name, 'the cross-check is carried out for every handler that asks for it (no return '
+                  'in front of the comparison loop)', gx.loc(loop), 'a handler that is not yet in the member list - a '
+                  'member under construction - is not compared at all')
     # Groups::crossCheckArguments: the modified handler is compared with every member BUT itself, and the call hands
     # the member of the current iteration to the modified handler
     g = prog.one('celma::prog_args::Groups', 'crossCheckArguments')
